@@ -141,8 +141,12 @@ CanStart(re, c) ==
 
 AllPats == [p \in 1..NPat |-> p]
 CandFor(c) == SelectSeq(AllPats, LAMBDA p : CanStart(Patterns[p].re, c))
-AsciiCand == [c \in 0..127 |-> CandFor(c)]          \* constant: evaluated once
-Cand(c) == IF c <= 127 THEN AsciiCand[c] ELSE CandFor(c)
+\* built as an explicit tuple (TLC evaluates [c \in S |-> e] lazily, at every application);
+\* a constant definition, evaluated once
+RECURSIVE CandTuple(_)
+CandTuple(c) == IF c > 127 THEN <<>> ELSE <<CandFor(c)>> \o CandTuple(c + 1)
+AsciiCand == CandTuple(0)
+Cand(c) == IF c <= 127 THEN AsciiCand[c + 1] ELSE CandFor(c)
 
 RECURSIVE BestFrom(_, _, _, _, _, _)
 BestFrom(cs, k, s, i, bl, bp) ==
